@@ -59,6 +59,12 @@ class Check:
             results = audit_axioms(theorems)
         except Exception as e:      # pragma: no cover
             results = {t: (False, ["audit failed: %s" % e]) for t in theorems}
+        # thorough tier: independent re-check of the compiled modules with leanchecker (cached per source hash)
+        if self.tier == "thorough" and theorems and ok:
+            lc = leanchecker_ok()
+            self.coverage["leanchecker"] = lc
+            if not lc.get("ok"):
+                results = {t: (False, ["leanchecker failed: " + lc.get("log", "")[-300:]]) for t in theorems}
         for t in theorems:
             okt, axs = results.get(t, (False, ["missing"]))
             if not okt or hits or (terr and self.pid in ("C16", "C17", "C18", "C19", "C20")):
@@ -125,6 +131,27 @@ class Check:
                                  "model_comparisons", "model_disagreements", "oracle_failures")})))
         sys.stdout.flush()
         return 1 if self.violations else 0
+
+
+def leanchecker_ok():
+    import subprocess
+    from runner import lean_sources_hash
+    cache = os.path.join(BUILD, "leanchecker.json")
+    key = lean_sources_hash()
+    try:
+        c = json.load(open(cache))
+        if c.get("key") == key:
+            return c
+    except Exception:
+        pass
+    t0 = time.time()
+    r = subprocess.run(["lake", "env", "leanchecker", "Properties"], cwd=LEAN, stdout=subprocess.PIPE,
+                       stderr=subprocess.STDOUT, text=True)
+    c = {"key": key, "ok": r.returncode == 0, "log": r.stdout[-2000:], "wall_s": round(time.time() - t0, 1),
+         "cmd": "lake env leanchecker Properties"}
+    os.makedirs(BUILD, exist_ok=True)
+    json.dump(c, open(cache, "w"))
+    return c
 
 
 def load_known_findings():
